@@ -28,6 +28,8 @@ fn main() {
             let file = args.get(3).cloned().unwrap_or_else(|| usage());
             let doc: serde_json::Value = serde_json::from_str(&std::fs::read_to_string(&file).expect("read replay file")).expect("parse replay file");
             let case = &doc["case"];
+            // hangs and process aborts inside the subject are verdicts here too
+            mc::report::start_watchdog(&prop, case["engine"].as_str().unwrap_or("?"), Tier::Quick);
             let code = match case["engine"].as_str() {
                 Some("serve_mc") => mc::serve_mc::replay(case, &prop),
                 Some("fs_mc") => mc::fs_mc::replay(case, &prop),
@@ -94,12 +96,16 @@ fn run(prop: &str, tier: Tier) -> i32 {
         run.extra.insert("bodies_drained_inside_a_tokio_task".into(), serde_json::json!(tk.evaluations));
         rule_suffix.push_str("; plus 16 bodies whose entity delivers 100..1000 always-ready one-byte chunks (200, single 206, multipart), drained inside a tokio task (cooperative budget, runtime context)");
         pre.merge(tk);
+        let ss = s::run_strict_streams(prop);
+        run.extra.insert("bodies_over_strict_entity_streams".into(), serde_json::json!(ss.evaluations));
+        rule_suffix.push_str(" and by hand (up to 3000 chunks); bodies over honest entity streams that panic when polled after their end (drained without extra polls)");
+        pre.merge(ss);
     }
     if engine == "stream_mc" {
         // every chunk size x coding x waker discipline x payload against a fixed set of history shapes
         let zoo = mc::stream_mc::stream_zoo(prop, tier);
         run.extra.insert("stream_zoo_histories".into(), serde_json::json!(zoo.evaluations));
-        rule_suffix.push_str("; plus the streaming 'zoo': 20 history shapes (every operation incl. write_vectored, abort and body drop; write sizes 1, c-1, c, c+1, 3c+1, 70001) x chunk size {1,2,3,7,8,19,255,256,512,1000,4096,16384,65536} x {identity, gzip level 0/1/6/9} x {same waker, fresh waker per poll} x {incompressible, 'a'-run}");
+        rule_suffix.push_str("; plus the streaming 'zoo': 21 history shapes (every operation incl. write_vectored, write!, abort and body drop; write sizes 1, c-1, c, c+1, 3c+1, 70001) x chunk size {1,2,3,7,8,19,255,256,512,1000,4096,16384,65536} x {identity, gzip level 0/1/6/9} x {same waker, fresh waker per poll} x {incompressible, 'a'-run}; plus histories of two bodies in one process (a first one aborted / dropped with unread chunks, then an ordinary one, which is judged)");
         pre.merge(zoo);
     }
     let mut st = f(&mut run);
